@@ -213,8 +213,13 @@ def c12_9(ctx: Ctx):
     ctx.check(ok, pp, pp.node, "the print-as-string guard counter is raised before and lowered (in finally) after", "counter pairing changed: integer data would be typed as strings or strings lose their type")
     eb = repo.func(ST + "emit_bytes")
     t = " ".join(src(eb.node).split())
-    ctx.check("if not self._prevent_print_as_string_count:" in t and "self._emit_value_with_encoding(state, data, Assembler.Result.DataType.ASCII)" in t and "else: self._append_data(data, state.loc)" in t, eb, eb.node,
-              "string bytes get an ASCII-typed block, integer bytes are plain data", "emit_bytes dispatch changed")
+    le = linear(eb.node)
+    asc = [g for g, c in le.all_calls() if src(c) == "self._emit_value_with_encoding(state, data, Assembler.Result.DataType.ASCII)"]
+    raw = [g for g, c in le.all_calls() if src(c) == "self._append_data(data, state.loc)"]
+    # the ASCII arm may first try to extend the previous string block (one more condition); the raw arm has none
+    ok = len(asc) == 1 and len(raw) == 1 and le.under(asc[0], "not self._prevent_print_as_string_count") and le.under(raw[0], "self._prevent_print_as_string_count") \
+        and len([a for a in f_atoms(asc[0].guard)]) <= 2 and len([a for a in f_atoms(raw[0].guard)]) == 1
+    ctx.check(ok, eb, eb.node, "string bytes get an ASCII-typed block, integer bytes are plain data", "emit_bytes dispatch changed")
 
 
 @rule("C08.8", ["C08", "C12"], "every CFI callback of the assembler records its directive (or the procedure attribute) for the current procedure", 12)
